@@ -166,8 +166,8 @@ class MappingIsoparametric(Mapping):
             # the points would grow with their number (rounding errors)
             # and the update cannot become smaller than the rounding error
             # of the residual x - F, about eps * |x|, amplified by invDF
-            floor = (64. * np.finfo(float).eps * np.abs(x).max()
-                     * np.abs(invDF).max(axis=(0, 1, 3)))
+            floor = (64. * np.finfo(float).eps * np.abs(x).max(initial=0.)
+                     * np.abs(invDF).max(axis=(0, 1, 3), initial=0.))
             if (np.abs(dX).max(axis=(0, 2)) < newton_tol + floor).all():
                 return X
         raise Exception(("Newton iteration didn't converge "
